@@ -89,6 +89,29 @@ def stored_lambda_tracers(p):
     return out
 
 
+def for_target_tracers(p):
+    """Tracer keys of values that are assigned, inside a for loop, to a target of that loop."""
+    out = set()
+
+    def ks(e):
+        x = p['exprs'][e - 1]
+        r = {x['k']} if x['kind'] in ('T', 'D', 'I') else set()
+        for a in x['args']:
+            r |= ks(a)
+        return r
+    for d in p['nodes']:
+        if d['kind'] != 'for':
+            continue
+        todo = list(d['body'])
+        while todo:
+            m = todo.pop()
+            dd = p['nodes'][m - 1]
+            if set(dd['tgt']) & set(d['tgt']) and dd['e'] and dd['kind'] != 'for':
+                out |= ks(dd['e'])
+            todo += dd['body'] + dd['orelse'] + dd['final'] + [x for hh in dd['handlers'] for x in hh['body']]
+    return out
+
+
 def for_target_assigned_in_body(p):
     for n, d in enumerate(p['nodes'], 1):
         if d['kind'] == 'for':
@@ -135,10 +158,11 @@ def classify(p, d, rec, claims):
     i0, ev0, ov0 = first_divergence(d)
     if ev0 and ov0 and ev0[:2] == ov0[:2] and len(ev0[2]) == len(ov0[2]):
         for x, y in zip(ev0[2], ov0[2]):
-            if x != y and y[0] == 'e' and for_target_assigned_in_body(p):
+            stale = (y[0] == 'e') or (y[0] == 't' and y[1] in for_target_tracers(p)) or (x[0] == 't' and x[1] in for_target_tracers(p))
+            if x != y and stale and for_target_assigned_in_body(p):
                 return ('c01:diverge:for-header-kills-target',
-                        'a variable that is a for-loop target holds the loop element (%s) where the value assigned to it inside the '
-                        'loop body (%s) was expected: the analyses run on the lowered tree lose the assignment (for-header kills its '
+                        'a variable that is a for-loop target holds the loop element or an older value (%s) where the value assigned to it '
+                        'inside the loop body (%s) was expected: the analyses run on the lowered tree lose the assignment (for-header kills its '
                         'target, findings C06/C07)' % (y, x))
     # the first effect that differs is a tracer inside the body of a stored lambda, called with different values of the
     # variables it closes over: the lambda reads the function's variable, the assignment went to a generated body's local
